@@ -39,4 +39,20 @@ def validGate (H : List Nat) (D : List Int) (mask : List Bool) (t : Nat) : Bool 
   let ordered := kept.all (fun i => dropped.all (fun j => D.getD j 0 ≤ D.getD i 0))
   (lower, minimal, ordered)
 
+/-- the statements of `gate.density2d` that select the accepted bins, as the source spells them.  The model stands for them as follows:
+`counts` = `svH` (bin counts in order of decreasing smoothed density, `sidx = argsort(vD)[::-1]`), `t` = `n = ceil(fraction · #events in
+the grid)`, `acceptCount counts t` = `Nidx + 1` (first prefix whose cumulative count reaches `n`), `accepted … = 0` for `n = 0`; the
+accepted bins are `sidx[:Nidx+1]`, and a fraction outside `[0, 1]` is refused. -/
+def sourceSpec : List String :=
+  ["refuse if gate_fraction < 0 or gate_fraction > 1",
+   "n = int(np.ceil(gate_fraction * float(len(event_indices))))",
+   "vD = D.ravel(order='C')",
+   "vH = H.ravel(order='C')",
+   "sidx = np.argsort(vD)[::-1]",
+   "svH = vH[sidx]",
+   "csvH = np.cumsum(svH)",
+   "Nidx = np.nonzero(csvH >= n)[0][0]",
+   "accepted_bin_indices = sidx[:Nidx + 1]",
+   "v_bin_mask[accepted_bin_indices] = True"]
+
 end FlowCal.Density
